@@ -7,8 +7,8 @@ vars == <<lines, decl, cols>>
 
 Fields == {"a", "b", "H", "F"}
 LineSet == {<<>>} \cup {<<f>> : f \in Fields} \cup {<<f, g>> : f \in Fields, g \in {"a", "b"}}
-Decls == {[kind |-> "rows", rows |-> 1, footer |-> FALSE], [kind |-> "rows", rows |-> 2, footer |-> FALSE],
-          [kind |-> "hf", rows |-> 0, footer |-> FALSE], [kind |-> "hf", rows |-> 0, footer |-> TRUE]}
+Decls == {[kind |-> k[1], rows |-> k[2], footer |-> k[3], pre |-> p] :
+            k \in {<<"rows", 1, FALSE>>, <<"rows", 2, FALSE>>, <<"hf", 0, FALSE>>, <<"hf", 0, TRUE>>}, p \in BOOLEAN}
 Col(i, li, lp) == [idx |-> i, li |-> li, lp |-> lp]
 ColSets == { <<Col(1, 0, ""), Col(2, 0, "")>>, <<Col(1, 2, ""), Col(2, 1, "")>>, <<Col(2, 0, "F"), Col(1, 0, "")>>,
              <<Col(3, 0, ""), Col(1, 0, "")>>, <<Col(1, 0, ""), Col(1, 0, ""), Col(2, 3, "")>> }
@@ -27,7 +27,7 @@ Consistent == OffsetsConsistent(I)
 SliceAgree == \A ln \in UNION {[1..n -> {"a", "b"}] : n \in 0..3} : \A st \in 1..5 : \A len \in 0..4 : ImplSlice(ln, st, len) = Slice(ln, st, len)
 SliceOnce == (lines = <<>> /\ decl.kind = "rows" /\ decl.rows = 1) => SliceAgree
 
-NonTrivial == Len(NonBlank(lines)) >= 2 /\ (decl.kind = "hf" \/ decl.rows = 2)
+NonTrivial == Len(NonBlank(lines)) >= 2 /\ (decl.kind = "hf" \/ decl.rows = 2 \/ decl.pre)
 Emit == (EmitCases /\ (EmitMod = 1 \/ RandomElement(1..EmitMod) = 1)) =>
-          PrintT(<<"CASE", ToJson([lines |-> lines, decl |-> decl, cols |-> cols, recs |-> R.recs, end |-> R.end, nt |-> NonTrivial])>>)
+          PrintT(<<"CASE", ToJson([lines |-> lines, decl |-> decl, cols |-> cols, recs |-> R.recs, end |-> R.end, nt |-> NonTrivial, prem |-> PreMatched(lines, decl)])>>)
 =============================================================================
